@@ -70,6 +70,7 @@ void harness(void) {
   VP_IN(int, in_c);
   VP_IN(uint64_t, in_used);
   in_r = RDIM, in_c = CDIM; /* enumerated per group: a symbolic memset length is intractable */
+  in_used = USEDMASK;      /* header block empty / full (spill path); the symbolic mask is H_HDR_MALLOC */
   mzd_cache.used = in_used;
   mzd_t *A       = mzd_init(in_r, in_c);
   VP_ASSERT(A != NULL && (!(in_r && in_c) || __CPROVER_rw_ok(A->data, sizeof(word) * in_r * A->rowstride)), "mzd_init: complete object or no return");
